@@ -1,92 +1,14 @@
-import PdfModel.Drv.C12
-import PdfModel.Model.Concurrent
+import PdfModel.Drv.C13Sched
+import PdfModel.Drv.C13Lazy
 
-/-! Line-protocol handler for the C13 streams: replays a schedule on the transition system.
-
-  c13.replay <guard> <cfg> <tol> <size> <root> <objs> <threads> <schedule>
-     guard     `0` one guard stack per thread (the code under test) | `1` one stack shared by all threads (before D29)
-     cfg tol size root objs   as in `c12.run`; the file is opened sequentially (catalog loaded) before the threads start
-     threads   `/`-separated, per thread the `;`-separated calls of `c12.run` (`-` = none)
-     schedule  `.`-separated thread numbers (`-` = empty)
-  → `<trace>|<results>|<final>|<enabled>`
-     trace     `.`-separated, per scheduled step where the thread stands afterwards:
-               `t` between calls | `e<r>` entry of get | `p<r>` guard pushed | `w<r>` waiting for the slot
-               | `s<r>` before the store | `o<r>` before the pop | `d` finished | `x` panicked
-               | `!` the step was not enabled (replay stops)
-     results   `/`-separated per thread, the `;`-separated answers of its completed calls
-     final     `done` | `running` | `deadlock` | `panic`
-     enabled   `.`-separated, per scheduled step the threads that were enabled before it (thread numbers
-               concatenated): compared with what the baton scheduler saw, so that a step the model allows and
-               the code does not (or the other way round) shows up
--/
+/-! Line-protocol handler for the C13 streams: `c13.replay` (Drv/C13Sched.lean: schedules of typed loads) and
+`c13.lazy` (Drv/C13Lazy.lean: once-initialised fields of shared objects). -/
 
 namespace DrvC13
-open Cache CacheDoc Conc Proto DrvC12
-
-def status (t : Thread Val String) : String :=
-  match t.ctl, t.stack with
-  | .start, _ => "t"
-  | .enter _ r _, _ => s!"e{r}"
-  | .pushed _ r _, _ => s!"p{r}"
-  | .waiting _ r _, _ => s!"w{r}"
-  | .storing _, f :: _ => s!"s{f.r}"
-  | .storing _, [] => "s?"
-  | .popping _ r _ _, _ => s!"o{r}"
-  | .done, _ => "d"
-  | .panicked, _ => "x"
-
-/-- the threads that can take a step, as a string of thread numbers -/
-def enabledSet (doc : Doc Val String) (cfg : Conc.Cfg) (s : State Val String) : String :=
-  String.join (((List.range s.threads.length).filter fun i => s.enabled doc cfg i).map toString)
-
-/-- per step: where the thread stands afterwards, and which threads were enabled before the step -/
-def replay (doc : Doc Val String) (cfg : Conc.Cfg) : State Val String → List Nat → List String → List String →
-    List String × List String × State Val String
-  | s, [], acc, en => (acc.reverse, en.reverse, s)
-  | s, i :: is, acc, en =>
-    match step doc cfg s i with
-    | none => (("!" :: acc).reverse, (enabledSet doc cfg s :: en).reverse, s)
-    | some s' =>
-      match s'.threads[i]? with
-      | some t => replay doc cfg s' is (status t :: acc) (enabledSet doc cfg s :: en)
-      | none => (("?" :: acc).reverse, en.reverse, s')
-
-def slotOf : Entry Val String → Slot Val String
-  | .val T v => .computed T (.ok v)
-  | .err e => .computed 0 (.err e)
-
-def parseThreads (s : String) : Option (List (List CallK)) :=
-  mapM? parseCalls (s.splitOn "/")
-
-def parseSched (s : String) : Option (List Nat) :=
-  if s == "-" then some [] else mapM? natOf (s.splitOn ".")
-
-def finalOf (doc : Doc Val String) (cfg : Conc.Cfg) (s : State Val String) : String :=
-  if s.anyPanic then "panic"
-  else if s.allDone then "done"
-  else if s.deadlocked doc cfg then "deadlock"
-  else "running"
-
-def runAll (d : Desc) (guard : Bool) (ccfg : Cache.Cfg) (rootId : Nat) (threads : List (List CallK)) (sched : List Nat) : String :=
-  let doc := toDoc d
-  let o := call doc ccfg (d.size + d.objs.length + 4) St.empty (getP tC rootId)
-  match o.1 with
-  | .ok _ =>
-    let cfg : Conc.Cfg := ⟨ccfg.objCache, ccfg.stmCache, guard⟩
-    let slots := o.2.obj.map fun p => (p.1, slotOf p.2)
-    let s0 : State Val String := State.init slots o.2.stm (threads.map fun cs => cs.map fun c => c.prog d o.1)
-    let r := replay doc cfg s0 sched [] []
-    let results := r.2.2.threads.map fun t => joinWith ";" (t.out.map renderRes)
-    s!"{joinWith "." r.1}|{joinWith "/" results}|{finalOf doc cfg r.2.2}|{joinWith "." r.2.1}"
-  | x => s!"open-failed:{renderRes x}"
 
 def handle (args : List String) : String :=
   match args with
-  | ["c13.replay", guard, cfg, tol, size, root, objs, threads, sched] =>
-    match boolOf guard, parseCfg cfg, boolOf tol, natOf size, natOf root, parseObjs objs, parseThreads threads, parseSched sched with
-    | some guard, some cfg, some tol, some size, some root, some objs, some threads, some sched =>
-      runAll ⟨size, tol, objs⟩ guard cfg root threads sched
-    | _, _, _, _, _, _, _, _ => "bad-request"
-  | _ => "bad-request"
+  | "c13.lazy" :: _ => handleLazy args
+  | _ => handleSched args
 
 end DrvC13
